@@ -931,7 +931,11 @@ def metamorphic_scipy(run: Run, model, kind):
     """On a fitted (non-joint) model the optimisation is deterministic (start = the state's values): per identifier the row must not
     depend on the other individuals, on the order of the cohort or on the number of jobs."""
     from harness import synth
-    df = synth.make_df(n_ind=4, n_feat=3, seed=21, kind=kind)
+    import pandas as pd
+    # the first individual has many visits (a long optimisation), the others few: with several workers the results do not come back in
+    # submission order, so pairing them with the identifiers by position would show
+    df = pd.concat([synth.make_df(n_ind=1, n_feat=3, seed=21, kind=kind, visits=(14, 14), id_prefix="a"),
+                    synth.make_df(n_ind=3, n_feat=3, seed=22, kind=kind, visits=(2, 3), id_prefix="b")], ignore_index=True)
     ids = sorted(df.ID.unique())
     names = ind_names(model)
 
@@ -942,7 +946,7 @@ def metamorphic_scipy(run: Run, model, kind):
     try:
         base = pers(df)
         perm = pers(reorder_blocks(df, [ids[2], ids[0], ids[3], ids[1]]))
-        par = pers(df, n_jobs=2) if run.tier == "thorough" else base   # starting worker processes costs ~30 s
+        par = pers(df, n_jobs=2) if (run.tier == "thorough" or kind == "logistic") else base   # quick: worker processes for one kind only
         single = pers(df[df.ID == ids[1]])
     except Exception as e:
         run.fail(f"scipy:metamorphic-raises:{type(e).__name__}", f"{type(e).__name__}: {e}", dict(kind=kind))
